@@ -4,6 +4,8 @@
 //   <family> obj=<k> ov=<overload> args...      "the other object" is obj 1-k
 //
 // Output `<impl> \t <std>`; a line is `<ret> <state obj k> <state other>` with state = `size:[units]:nul`.
+//   ov=self|selfsub|selfsubv|selfptr: the argument is (a part of) the string object itself, on both sides
+//   erase_if pred=<eq|ne|lt|ge|odd|all|none> v=<n>: free erase_if with that predicate on the unsigned code unit
 //   pre          the call is outside the compared domain (std throws / UB / len > Capacity): nothing is executed
 //   clamp inv=b  the std result does not fit: the implementation is run, only its invariant is reported
 //                (size() <= capacity() and data()[size()] == 0) and the std string is re-synchronised.
@@ -148,6 +150,8 @@ struct M final : Machine {
         std::size_t const p2 = P("pos2", 0);
         std::size_t const c2 = P("count2", npos);
         C const ch           = static_cast<C>(l.i("ch", 0));
+        std::size_t const soff = l.has("off") ? static_cast<std::size_t>(l.i("off")) : 0;
+        bool const is_self     = ov.rfind("self", 0) == 0;
         // the characters the argument denotes (std side); throws Invalid when the call is not defined
         auto den = [&]() -> SS {
             if (ov == "ptrn") { if (an > raw.n) throw Invalid{}; return SS(raw.p(), an); }
@@ -157,6 +161,9 @@ struct M final : Machine {
             if (ov == "str") return so;
             if (ov == "strsub" || ov == "strsubv") { if (p2 > so.size()) throw Invalid{}; return so.substr(p2, c2); }
             if (ov == "ch") return SS(1, ch);
+            if (ov == "self") return s;
+            if (ov == "selfsub" || ov == "selfsubv") { if (p2 > s.size()) throw Invalid{}; return s.substr(p2, c2); }
+            if (ov == "selfptr") { if (soff + an > s.size()) throw Invalid{}; return s.substr(soff, an); }
             throw Invalid{};
         };
         auto den_opt = [&]() -> std::optional<SS> {
@@ -190,6 +197,26 @@ struct M final : Machine {
         }
 
         if (op == "assign" || op == "opassign" || op == "ctor") {
+            if (is_self) { // the argument is (a part of) the string itself, for std and for etl alike
+                if (op == "ctor") return "bad-op\tbad-op";
+                return mutate(true,
+                    [&](SS& t) -> Ret {
+                        (void)den();
+                        SS& u = t;
+                        if (ov == "self") { if (op == "opassign") t = u; else t.assign(u); }
+                        else if (ov == "selfsub") t.assign(u, p2, c2);
+                        else if (ov == "selfptr") t.assign(t.data() + soff, an);
+                        else throw std::logic_error("assign self ov");
+                        return {};
+                    },
+                    [&](ES& x) -> Ret {
+                        ES& y = x;
+                        if (ov == "self") { if (op == "opassign") x = y; else x.assign(y); }
+                        else if (ov == "selfsub") { if (l.has("count2")) x.assign(y, p2, c2); else x.assign(y, p2); }
+                        else if (ov == "selfptr") x.assign(x.data() + soff, an);
+                        return {};
+                    });
+            }
             if (ov == "fill") {
                 auto cnt = static_cast<std::size_t>(l.i("count"));
                 return mutate(true, [&](SS& t) -> Ret { t.assign(std::min(cnt, N + 1), ch); return {}; },
@@ -238,6 +265,27 @@ struct M final : Machine {
             return mutate(false, [&](SS& t) -> Ret { if (t.empty()) throw Invalid{}; t.pop_back(); return {}; }, [&](ES& x) -> Ret { x.pop_back(); return {}; });
         }
         if (op == "append" || op == "pluseq") {
+            if (is_self) {
+                return mutate(false,
+                    [&](SS& t) -> Ret {
+                        (void)den();
+                        SS& u = t;
+                        if (ov == "self") { if (op == "pluseq") t += u; else t.append(u); }
+                        else if (ov == "selfsub") t.append(u, p2, c2);
+                        else if (ov == "selfptr") t.append(t.data() + soff, an);
+                        else throw std::logic_error("append self ov");
+                        return {};
+                    },
+                    [&](ES& x) -> Ret {
+                        ES& y = x;
+                        ES* r = nullptr;
+                        if (ov == "self") r = op == "pluseq" ? &(x += y) : &x.append(y);
+                        else if (ov == "selfsub") r = l.has("count2") ? &x.append(y, p2, c2) : &x.append(y, p2);
+                        else if (ov == "selfptr") r = &x.append(x.data() + soff, an);
+                        if (r != &x) throw std::logic_error("append did not return *this");
+                        return {};
+                    });
+            }
             if (ov == "fill") {
                 auto cnt = l.pos("count");
                 return mutate(false, [&](SS& t) -> Ret { t.append(std::min(cnt, N + 1), ch); return {}; }, [&](ES& x) -> Ret { x.append(cnt, ch); return {}; });
@@ -265,6 +313,27 @@ struct M final : Machine {
         }
         if (op == "insert") {
             auto idx = static_cast<std::size_t>(l.i("idx"));
+            if (is_self) {
+                return mutate(false,
+                    [&](SS& t) -> Ret {
+                        (void)den();
+                        SS& u = t;
+                        if (ov == "self") t.insert(idx, u);
+                        else if (ov == "selfsubv") t.insert(idx, u, p2, c2);
+                        else if (ov == "selfptr") t.insert(idx, t.data() + soff, an);
+                        else throw std::logic_error("insert self ov");
+                        return {};
+                    },
+                    [&](ES& x) -> Ret {
+                        ES& y = x;
+                        ES* r = nullptr;
+                        if (ov == "self") r = &x.insert(idx, y);
+                        else if (ov == "selfsubv") r = l.has("count2") ? &x.insert(idx, y, p2, c2) : &x.insert(idx, y, p2);
+                        else if (ov == "selfptr") r = &x.insert(idx, x.data() + soff, an);
+                        if (r != &x) throw std::logic_error("insert did not return *this");
+                        return {};
+                    });
+            }
             if (ov == "fill") {
                 auto cnt = static_cast<std::size_t>(l.i("count"));
                 return mutate(false, [&](SS& t) -> Ret { t.insert(idx, std::min(cnt, N + 1), ch); return {}; }, [&](ES& x) -> Ret { x.insert(idx, cnt, ch); return {}; });
@@ -307,6 +376,23 @@ struct M final : Machine {
         if (op == "erase_value") {
             return mutate(false, [&](SS& t) -> Ret { return static_cast<std::size_t>(std::erase(t, ch)); },
                 [&](ES& x) -> Ret { return static_cast<std::size_t>(etl::erase(x, ch)); });
+        }
+        if (op == "erase_if") {
+            std::string const pr = l.str("pred");
+            auto const v         = static_cast<unsigned long long>(l.i("v", 0));
+            auto pred            = [&](C c) -> bool {
+                auto const u = static_cast<unsigned long long>(static_cast<U<C>>(c));
+                if (pr == "eq") return u == v;
+                if (pr == "ne") return u != v;
+                if (pr == "lt") return u < v;
+                if (pr == "ge") return u >= v;
+                if (pr == "odd") return u % 2 == 1;
+                if (pr == "all") return true;
+                return false;
+            };
+            if (pr != "eq" && pr != "ne" && pr != "lt" && pr != "ge" && pr != "odd" && pr != "all" && pr != "none") return "bad-op\tbad-op";
+            return mutate(false, [&](SS& t) -> Ret { return static_cast<std::size_t>(std::erase_if(t, pred)); },
+                [&](ES& x) -> Ret { return static_cast<std::size_t>(etl::erase_if(x, pred)); });
         }
         if (op == "resize") {
             auto cnt = l.pos("count");
